@@ -111,6 +111,16 @@ func (dw *deferWriter) Flush() error {
 	return dw.w.Flush()
 }
 
+// closeOpenElements ends the elements that have been started through dw and
+// not finished (a handler that returned in the middle of an element), so that
+// what the session writes next is not nested in them.
+// It does nothing if dw was never written to (and holds no lock).
+func (dw *deferWriter) closeOpenElements() {
+	if dw.w != nil {
+		dw.s.closeOpenElements()
+	}
+}
+
 // aLongTimeAgo is a convenient way to cancel dials.
 var aLongTimeAgo = time.Unix(1, 0)
 
@@ -724,6 +734,9 @@ func handleInputStream(s *Session, handler Handler) (err error) {
 	if err := handler.HandleXMPP(rw, &start); err != nil && err != io.EOF {
 		return err
 	}
+	// Whatever the handler left unfinished ends here: the default reply below
+	// must be a top level element.
+	w.closeOpenElements()
 
 	iqNeedsResp := typ == string(stanza.GetIQ) || typ == string(stanza.SetIQ)
 	// If the user did not write a response to an IQ, send a default one.
